@@ -198,10 +198,17 @@ def corr_modes(run, quick):
                     for r in range(rows_in.shape[0]):
                         b.add(f"diff modesop {name} {s} {L} " + cx_send(rows_in[r]), [f"s={gs}", f"L={gL}"] + cx_bits(rows_out[r]),
                               {**meta0, "row": r}, f"modesop:{name}:{kind}")
+                        if name in GEN_LOOPS:
+                            # the loop GENERATED from the method's text (Gen/DiffKern.lean), on the executable flat memory
+                            b.add(f"diff genmodesop {name} {s} {L} " + cx_send(rows_in[r]), [f"s={gs}", f"L={gL}"] + cx_bits(rows_out[r]),
+                                  {**meta0, "row": r, "model": "generated"}, f"genmodesop:{name}:{kind}")
                 if not np.array_equal(f.ndarray.view(np.float64), fin.view(np.float64), equal_nan=True):
                     run.corr_break("corr:operators", {"layer": "input-mutated", "s": s, "ell_max": L})
         nbad += b.flush()
     return nbad
+
+
+GEN_LOOPS = ("Lsquared", "Rsquared", "Lz", "Lplus", "Lminus", "Rplus", "Rminus", "eth")
 
 
 def corr_arrays(run, quick):
